@@ -1512,6 +1512,10 @@ def run_corpus(ctx: C.Ctx) -> None:
 
 def replay(ctx: C.Ctx, doc, from_corpus: bool = False) -> None:
     inp = doc.get("input", {})
+    if inp.get("probe") == "esc" and ctx.driver is not None:
+        esc_flush(ctx, [q for q in esc_strings([inp["string"]])
+                        if q[3]["strip_control"] == bool(inp.get("strip_control"))])
+        return
     if "spec" not in inp:
         return
     steps = [step_of(b) for b in inp.get("before", [])] + [step_of(inp)]
@@ -1552,6 +1556,77 @@ def fmt_probes(ctx: C.Ctx) -> None:
             ctx.disagree(inp["op"], inp, exp, got)
 
 
+def esc_strings(strings: List[str]) -> Tuple[int, int]:
+    """The escaping layer called directly: real `utils.enc`, `XMLConverter.attr`, `XMLConverter.write_text` on the
+    given strings (strip_control off / on).  Returns driver requests; the property side (escaping is undone by
+    replacing references, for EVERY string) is evaluated by the Lean `unescAny` on the implementation's output."""
+    from pdfminer.converter import XMLConverter
+    from pdfminer.pdfinterp import PDFResourceManager
+    from pdfminer.utils import enc
+    reqs = []
+    for strip in (False, True):
+        fp = io.StringIO()
+        conv = XMLConverter(PDFResourceManager(), fp, codec=None, stripcontrol=strip)
+        sf = "s" if strip else "k"
+        for t in strings:
+            inp = {"probe": "esc", "string": t, "strip_control": strip}
+            a = conv.attr(t)
+            pos = len(fp.getvalue())
+            conv.write_text(t)
+            w = fp.getvalue()[pos:]
+            want = strip_c0(t) if strip else t
+            reqs.append((f"esc.attr {sf} {cps(t)}", "tie", hexs(a), {"op": "esc.attr", **inp}))
+            reqs.append((f"esc.text {sf} {cps(t)}", "tie", hexs(w), {"op": "esc.text", **inp}))
+            reqs.append((f"esc.unesc {hexs(a)}", "spec", hexs(want), {"op": "esc.unesc", "pos": "attr", **inp}))
+            reqs.append((f"esc.unesc {hexs(w)}", "spec", hexs(want), {"op": "esc.unesc", "pos": "text", **inp}))
+            if not strip:
+                e = enc(t)
+                reqs.append((f"esc.enc {cps(t)}", "tie", hexs(e), {"op": "esc.enc", **inp}))
+                reqs.append((f"esc.unesc {hexs(e)}", "spec", hexs(t), {"op": "esc.unesc", "pos": "enc", **inp}))
+    return reqs
+
+
+def esc_flush(ctx: C.Ctx, reqs) -> None:
+    outs = ctx.driver.ask([q[0] for q in reqs])
+    for (line, kind, exp, inp), got in zip(reqs, outs):
+        ctx.branch(kind + ":" + inp["op"])
+        if got == exp:
+            continue
+        if kind == "tie":
+            ctx.disagree(inp["op"], inp, exp, got)
+        else:
+            ctx.fail(C.Failure("escaped %s does not read back as the (stripped) string when its references are "
+                               "replaced (Lean unescAny)" % inp["pos"],
+                               {k: v for k, v in inp.items() if k not in ("op", "pos")}, exp, got,
+                               {"stage": "escape", "otype": "xml", "pos": inp["pos"]}))
+
+
+def esc_probes(ctx: C.Ctx) -> None:
+    """Strings over every alphabet incl. C0 controls, U+FFFE/U+FFFF, DEL/C1, astral characters and random scalar
+    values - far outside what XML can carry: the escaping layer itself must stay invertible."""
+    if ctx.driver is None:
+        return
+    rng = ctx.rng
+    kinds = list(ALPHABETS)
+    strings = ["", "&amp;", "&#9;", "a&b<c>d\"e'f", "\t\n\r", "\x00\x0b\x0c\x1f\x7f\x85", "\ufffe\uffff", "]]>",
+               "&#x27;", "\r\n", ";&;#"]
+    for _ in range(ctx.n(60, 1500)):
+        if rng.random() < 0.7:
+            strings.append(gen_string(rng, kinds, 1, 8))
+        else:
+            out = []
+            for _k in range(rng.randint(1, 6)):
+                o = rng.choice([rng.randint(0, 0x7F), rng.randint(0x80, 0xD7FF), rng.randint(0xE000, 0xFFFF),
+                                rng.randint(0x10000, 0x10FFFF)])
+                out.append(chr(o))
+            strings.append("".join(out))
+    for t in strings:
+        ctx.branch("esc-probe:" + ("control" if any(ord(c) < 0x20 and c not in "\t\n\r" for c in t) else
+                                   "non-xml-char" if any(not is_xml_char(c) for c in t) else
+                                   "special" if any(c in XML_SPECIAL + "\t\n\r" for c in t) else "plain"))
+    esc_flush(ctx, esc_strings(strings))
+
+
 def sibling(rng, spec):
     """Another document with the same fonts (names, maps) and XObject names but other page contents."""
     import copy
@@ -1586,6 +1661,7 @@ def follow_up(rng, base: Dict[str, Any]) -> Dict[str, Any]:
 def run(ctx: C.Ctx) -> None:
     run_corpus(ctx)
     fmt_probes(ctx)
+    esc_probes(ctx)
     rng = ctx.rng
     n = ctx.n(230, 6000)
     coll: List[CaseResult] = []
